@@ -49,6 +49,22 @@
 (* stores and replays them like any other value: nothing in the spec looks  *)
 (* at a value.                                                             *)
 (*                                                                         *)
+(* In-place modification downstream (mu = TRUE, the fourth part of the      *)
+(* model): the values are mutable objects and the consumer (any element     *)
+(* after the cache) modifies every object it receives in place after it was *)
+(* yielded - Mod(v) is the value of such an object afterwards.  "Stored" is *)
+(* the value as it was when it passed the cache in the filling run; every   *)
+(* later run must yield objects with exactly that value: nothing a previous *)
+(* run yielded (and the consumer modified since) may be yielded again.      *)
+(* memo[c].n (ghost) counts the complete replays served by the cache OBJECT *)
+(* c since it was built / filled / dropped (up to MaxRep), so that the      *)
+(* explored and exported histories replay one Cache object completely       *)
+(* several times (new containers around it, the same container - plain or   *)
+(* hoisted Source - once more), then a fresh object on the same file.       *)
+(* Design = "memo" is a design that keeps the objects of a complete replay  *)
+(* in the Cache object and serves later replays from them (memo[c].m: their *)
+(* values now); TLC refutes LoadIsStored for it.                            *)
+(*                                                                         *)
 (* Declarative part: stored[c] (ghost) is the version of the last complete  *)
 (* first run through c since the last drop; a later run must yield          *)
 (* F(stored[L]) and touch nothing before L.                                 *)
@@ -68,14 +84,25 @@ CONSTANTS MaxN,       \* flows of length 0..MaxN
                       \* stopped run / the exception of a failed run (Stop("keep"), RaiseAt(s, TRUE), Release)
           HoldScenarios, HoldData, HoldForms,      \* the pipelines / data profiles / forms explored with hd = TRUE
           HoldRc,                                  \* ... and the values of recompute of (all) their caches
+          Muts,       \* subset of BOOLEAN: the values of mu explored.  mu = TRUE: the consumer modifies every value it
+                      \* receives in place (mutable flow values); containers are kept (rr = TRUE) and the complete
+                      \* replays of every cache object are counted up to MaxRep
+          MutScenarios, MutData, MutForms, MutRc,  \* the pipelines / data profiles / forms / recompute values with mu = TRUE
+          MaxRep,     \* mu = TRUE: complete replays of one cache object that are told apart (the histories replay
+                      \* one object MaxRep + 1 times)
           StopKinds,  \* "close", "abandon"
           KeepHistory,\* TRUE: record the commands in h (export); FALSE: h stays empty
           Design      \* "allowed" (what the statement permits) | "rename" (one conforming design:
                       \* temporary name, renamed on exhaustion; used to generate the command
-                      \* histories of the export) | "final_name" (pinned code)
+                      \* histories of the export) | "final_name" (pinned code) | "memo" (rename + the objects of a
+                      \* complete replay kept in the Cache object and yielded again by its later replays)
 
 VARIABLES rr,                     \* scenario: containers are kept (see Reruns)
           hd,                     \* scenario: stopped runs may be kept suspended (see Holds)
+          mu,                     \* scenario: the consumer modifies the values it receives in place (see Muts)
+          memo,                   \* per cache OBJECT: [n |-> ghost (mu = TRUE only): complete replays it has served since it
+                                  \* was built / filled / dropped, up to MaxRep; m |-> Design = "memo" only: the values NOW
+                                  \* of the objects it yielded in its last complete replay (it still refers to them)]
           lens, vk, nc, shape,    \* scenario: flow length and value codes per data version, number of caches,
                                   \* which of pre/mid/post exist
           held,                   \* the caches with a suspended dump: a run through them was stopped and its
@@ -104,8 +131,8 @@ VARIABLES rr,                     \* scenario: containers are kept (see Reruns)
           pos, out,               \* values delivered in this run
           pulled, wpre, wmid,     \* pulls from src, values handled by pre, by mid in this run
           h                       \* ghost: commands so far (hidden by VIEW; exported)
-vars == <<rr, hd, lens, vk, nc, shape, held, hg, ver, file, stored, intr, ph, rc, L, eager, cont, pos, out, pulled, wpre, wmid, h>>
-view == <<rr, hd, lens, vk, nc, shape, held, hg, ver, file, stored, intr, ph, rc, L, eager, cont, pos, out, pulled, wpre, wmid>>
+vars == <<rr, hd, mu, memo, lens, vk, nc, shape, held, hg, ver, file, stored, intr, ph, rc, L, eager, cont, pos, out, pulled, wpre, wmid, h>>
+view == <<rr, hd, mu, memo, lens, vk, nc, shape, held, hg, ver, file, stored, intr, ph, rc, L, eager, cont, pos, out, pulled, wpre, wmid>>
 \* forms of starting a run in which the pipeline is a branch of Split([...]) (core/split.py: the branches go
 \* through meta.alter_sequence when the Split is built)
 EagerForms == {"split"}
@@ -136,6 +163,9 @@ Plain(n) == [i \in 1..n |-> FRESH]
 DataQuick == {<<Plain(0), Plain(2)>>, <<<<0>>, Plain(1)>>, <<<<0, FRESH>>, <<FRESH, DUP>>>>}
 DataThorough == {<<Plain(0), <<FRESH, 0>>, <<1>>>>, <<Plain(1), Plain(0), <<0, DUP>>>>,
                  <<Plain(3), <<FRESH, DUP, 0>>, <<2, 0, FRESH>>>>}
+\* the value of an object after the consumer has modified it in place (once more)
+Mod(v) == v + 10000
+NoMemo == [n |-> 0, m |-> <<>>]
 Absent == [k |-> "A", c |-> <<>>]
 Refused == [k |-> "B", c |-> <<>>]
 Full(s) == [k |-> "F", c |-> s]
@@ -145,16 +175,17 @@ ShapesFor(m) == {Shape(a, b, c) : a \in BOOLEAN, b \in (IF m = 1 THEN {FALSE} EL
 Cmd(name, a, r, c) == [cmd |-> name, a |-> a, rc |-> r, c |-> c]
 Log(hh, c) == IF KeepHistory THEN Append(hh, c) ELSE hh
 
-InitWith(rr0, hd0, data0, nc0, shape0) ==
-  /\ rr = rr0 /\ hd = hd0 /\ vk = data0 /\ lens = [v \in 1..Len(data0) |-> Len(data0[v])]
+InitWith(rr0, hd0, mu0, data0, nc0, shape0) ==
+  /\ rr = rr0 /\ hd = hd0 /\ mu = mu0 /\ memo = [c \in 1..nc0 |-> NoMemo] /\ vk = data0 /\ lens = [v \in 1..Len(data0) |-> Len(data0[v])]
   /\ nc = nc0 /\ shape = shape0 /\ ver = 1 /\ held = {} /\ hg = <<0, 0>>
   /\ file = [c \in 1..nc0 |-> Absent] /\ stored = [c \in 1..nc0 |-> 0]
   /\ intr = [c \in 1..nc0 |-> FALSE]
   /\ ph = "noobj" /\ rc = [c \in 1..nc0 |-> FALSE]
   /\ L = 0 /\ eager = FALSE /\ cont = NoCont /\ pos = 0 /\ out = <<>> /\ pulled = 0 /\ wpre = 0 /\ wmid = 0 /\ h = <<>>
-Init == \/ FALSE \in Reruns /\ \E d0 \in DataProfiles, sc \in Scenarios : InitWith(FALSE, FALSE, d0, sc[1], sc[2])
-        \/ TRUE \in Reruns /\ \E d0 \in RerunData, sc \in RerunScenarios : InitWith(TRUE, FALSE, d0, sc[1], sc[2])
-        \/ TRUE \in Holds /\ \E d0 \in HoldData, sc \in HoldScenarios : InitWith(FALSE, TRUE, d0, sc[1], sc[2])
+Init == \/ FALSE \in Reruns /\ \E d0 \in DataProfiles, sc \in Scenarios : InitWith(FALSE, FALSE, FALSE, d0, sc[1], sc[2])
+        \/ TRUE \in Reruns /\ \E d0 \in RerunData, sc \in RerunScenarios : InitWith(TRUE, FALSE, FALSE, d0, sc[1], sc[2])
+        \/ TRUE \in Holds /\ \E d0 \in HoldData, sc \in HoldScenarios : InitWith(FALSE, TRUE, FALSE, d0, sc[1], sc[2])
+        \/ TRUE \in Muts /\ \E d0 \in MutData, sc \in MutScenarios : InitWith(TRUE, FALSE, TRUE, d0, sc[1], sc[2])
 ScenAll == {<<m, s>> : m \in {1, 2}, s \in ShapesFor(2)} \ {<<1, s>> : s \in {t \in ShapesFor(2) : t.mid}}
 \* rr = TRUE, thorough
 DataRerunThorough == {<<Plain(2), Plain(1)>>, <<Plain(0), Plain(2)>>}
@@ -171,26 +202,36 @@ ScenHoldThorough == {<<1, Shape(TRUE, FALSE, TRUE)>>, <<2, Shape(FALSE, TRUE, FA
 DataHoldThorough == {<<Plain(2), Plain(1)>>}
 FormsHoldThorough == {"seq", "source_calter", "split"}
 FormsRerunQuick == {"seq", "source_calter", "el_malter", "split"}
+\* mu = TRUE: a bare cache / a tap after the cache (the consumer modifies the object inside the tap's tuple) /
+\* two caches (the second one feeds the later runs); the data change (a refilled cache replays the NEW flow)
+ScenMutQuick == {<<1, Shape(FALSE, FALSE, FALSE)>>, <<1, Shape(TRUE, FALSE, TRUE)>>, <<2, Shape(FALSE, TRUE, FALSE)>>}
+DataMutQuick == {<<Plain(2), Plain(1)>>}
+FormsMutQuick == {"seq", "source_calter", "el_malter"}
+ScenMutThorough == {<<1, Shape(FALSE, FALSE, FALSE)>>, <<1, Shape(TRUE, FALSE, TRUE)>>, <<2, Shape(FALSE, TRUE, FALSE)>>}
+DataMutThorough == {<<<<FRESH, 0>>, Plain(3)>>}
+FormsMutThorough == {"seq", "source_calter", "el_malter", "split"}
 \* quick: a cache first, last and next to the other one (no taps); every tap present
 ScenQuick == {<<1, Shape(FALSE, FALSE, FALSE)>>, <<1, Shape(TRUE, FALSE, TRUE)>>,
               <<2, Shape(FALSE, FALSE, FALSE)>>, <<2, Shape(TRUE, TRUE, TRUE)>>}
 
-Scenario == UNCHANGED <<rr, hd, lens, vk, nc, shape>>
+Scenario == UNCHANGED <<rr, hd, mu, lens, vk, nc, shape>>
 RunVars == <<L, eager, pos, out, pulled, wpre, wmid>>
 
 (***************************************************************************)
 (* Between runs.                                                           *)
 (***************************************************************************)
+\* (new Cache objects: nothing of the earlier runs is referred to any more)
 New(r) == /\ ph \in {"noobj", "idle"} /\ ph' = "idle" /\ rc' = r /\ cont' = NoCont
+          /\ memo' = [c \in 1..nc |-> NoMemo]
           /\ h' = Log(h, Cmd("new", "", r, 0))
           /\ Scenario /\ UNCHANGED <<ver, file, stored, intr, held, hg>> /\ UNCHANGED RunVars
 Drop(c) == /\ ph = "idle" /\ file' = [file EXCEPT ![c] = Absent] /\ stored' = [stored EXCEPT ![c] = 0]
-           /\ intr' = [intr EXCEPT ![c] = FALSE]
+           /\ intr' = [intr EXCEPT ![c] = FALSE] /\ memo' = [memo EXCEPT ![c] = NoMemo]
            /\ h' = Log(h, Cmd("drop", "", rc, c))
            /\ Scenario /\ UNCHANGED <<ver, ph, rc, cont, held, hg>> /\ UNCHANGED RunVars
 ChangeData == /\ ph = "idle" /\ ver < MaxVer /\ ver' = ver + 1
               /\ h' = Log(h, Cmd("data", "", rc, 0))
-              /\ Scenario /\ UNCHANGED <<file, stored, intr, ph, rc, cont, held, hg>> /\ UNCHANGED RunVars
+              /\ Scenario /\ UNCHANGED <<file, stored, intr, ph, rc, cont, held, hg, memo>> /\ UNCHANGED RunVars
 
 (***************************************************************************)
 (* A run.                                                                  *)
@@ -206,7 +247,7 @@ Start(form) == /\ ph = "idle" /\ ph' = "run" /\ L' = LastLoadable /\ eager' = (f
                         ELSE cont' = NoCont
                /\ pos' = 0 /\ out' = <<>> /\ pulled' = 0 /\ wpre' = 0 /\ wmid' = 0
                /\ h' = Log(h, Cmd("start", form, rc, 0))
-               /\ Scenario /\ UNCHANGED <<ver, file, stored, intr, rc, held, hg>>
+               /\ Scenario /\ UNCHANGED <<ver, file, stored, intr, rc, held, hg, memo>>
 \* the SAME container object is run again.  Every Cache.run in it decides anew; a Source hoisted at cache hl when the
 \* container was built is fed by that cache whatever has happened to it since (unless a later cache can be loaded)
 Restart == /\ ph = "idle" /\ cont.k /\ ph' = "run"
@@ -214,9 +255,11 @@ Restart == /\ ph = "idle" /\ cont.k /\ ph' = "run"
            /\ pos' = 0 /\ out' = <<>> /\ pulled' = 0 /\ wpre' = 0 /\ wmid' = 0
            /\ h' = Log(h, Cmd("restart", "", rc, 0))
            /\ ContEnd("new")     \* (the ghost only tells idle states apart)
-           /\ Scenario /\ UNCHANGED <<ver, file, stored, intr, rc, held, hg>>
+           /\ Scenario /\ UNCHANGED <<ver, file, stored, intr, rc, held, hg, memo>>
 
-Cur == IF L = 0 THEN F(ver) ELSE file[L].c     \* the flow that feeds this run
+\* Design = "memo": the cache object serves a replay from the objects of its last complete replay
+Memoed(c) == Design = "memo" /\ memo[c].n > 0
+Cur == IF L = 0 THEN F(ver) ELSE IF Memoed(L) THEN memo[L].m ELSE file[L].c     \* the flow that feeds this run
 CurVer == IF L = 0 THEN ver ELSE stored[L]
 \* (a hoisted container run again after its cache was dropped has nothing to load and no upstream: it can only raise)
 Broken == L > 0 /\ file[L].k # "F"
@@ -234,19 +277,26 @@ Deliver == /\ ph = "run" /\ ~Broken /\ pos < Len(Cur)
            /\ wpre' = wpre + (IF L = 0 /\ shape.pre THEN 1 ELSE 0)
            /\ wmid' = wmid + (IF L <= 1 /\ shape.mid THEN 1 ELSE 0)
            /\ h' = Log(h, Cmd("next", "", rc, 0))
-           /\ Scenario /\ UNCHANGED <<ver, file, stored, intr, ph, rc, L, eager, cont, held, hg>>
+           /\ Scenario /\ UNCHANGED <<ver, file, stored, intr, ph, rc, L, eager, cont, held, hg, memo>>
 
 Exhaust == /\ ph = "run" /\ ~Broken /\ pos = Len(Cur)
            /\ file' = [c \in 1..nc |-> IF Dumping(c) THEN Full(Cur) ELSE file[c]]
            /\ stored' = [c \in 1..nc |-> IF Dumping(c) THEN CurVer ELSE stored[c]]
            /\ intr' = [c \in 1..nc |-> IF Dumping(c) THEN FALSE ELSE intr[c]]
+           \* a cache that was (re)filled starts anew; the cache object that fed the run has served one more complete
+           \* replay - the consumer has modified every object of it (mu) after it was yielded
+           /\ memo' = [c \in 1..nc |-> IF Dumping(c) THEN NoMemo
+                                       ELSE IF c = L /\ mu
+                                       THEN [n |-> IF memo[c].n < MaxRep THEN memo[c].n + 1 ELSE MaxRep,
+                                             m |-> IF Design = "memo" THEN [i \in 1..Len(out) |-> Mod(out[i])] ELSE <<>>]
+                                       ELSE memo[c]]
            /\ h' = Log(h, Cmd("next", "", rc, 0))
            /\ EndRun /\ Scenario /\ UNCHANGED <<ver, rc, held, hg>> /\ ContEnd("full")
 
 \* what an interrupted dump may leave at the final file name
 AfterInterrupt(c) ==
   IF Design = "allowed" THEN {file[c], Absent, Refused} \cup (IF Broken THEN {} ELSE {Full(Cur)})
-  ELSE IF Design = "rename" THEN {file[c]}
+  ELSE IF Design \in {"rename", "memo"} THEN {file[c]}
   ELSE {IF pos = 0 THEN file[c] ELSE Full(SubSeq(Cur, 1, pos))}
 Interrupt ==
   /\ file' \in {f \in [1..nc -> UNION {AfterInterrupt(c) : c \in 1..nc} \cup {file[c] : c \in 1..nc}] :
@@ -254,6 +304,7 @@ Interrupt ==
   /\ stored' = [c \in 1..nc |-> IF file'[c] = file[c] THEN stored[c]
                                 ELSE IF file'[c] = Full(Cur) THEN CurVer ELSE 0]
   /\ intr' = [c \in 1..nc |-> IF Dumping(c) THEN TRUE ELSE intr[c]]
+  /\ UNCHANGED memo      \* (only a COMPLETE replay counts; what an interrupted replay yielded is not referred to)
 
 \* (an element raises while it handles the next value of the feeding flow; inside a Split the source is read,
 \* and may raise, before anything is delivered - whatever the flow that feeds the run)
@@ -287,12 +338,13 @@ Release == /\ ph = "idle" /\ held # {}
            /\ stored' = [c \in 1..nc |-> IF file'[c] = file[c] THEN stored[c] ELSE 0]
            /\ held' = {} /\ hg' = <<0, 0>>
            /\ h' = Log(h, Cmd("release", "", rc, 0))
-           /\ Scenario /\ UNCHANGED <<ver, intr, ph, rc, cont>> /\ UNCHANGED RunVars
+           /\ Scenario /\ UNCHANGED <<ver, intr, ph, rc, cont, memo>> /\ UNCHANGED RunVars
 
 Sites == {"src", "pre", "mid", "post", "pkl"}
-StartAny == \E f \in (IF hd THEN HoldForms ELSE IF rr THEN RerunForms ELSE Forms) : Start(f)
+StartAny == \E f \in (IF mu THEN MutForms ELSE IF hd THEN HoldForms ELSE IF rr THEN RerunForms ELSE Forms) : Start(f)
 \* (hd = TRUE: all caches of the pipeline with the same recompute)
-NewAny == \E r \in (IF hd THEN {[c \in 1..nc |-> b] : b \in HoldRc} ELSE [1..nc -> BOOLEAN]) : New(r)
+NewAny == \E r \in (IF hd THEN {[c \in 1..nc |-> b] : b \in HoldRc}
+                     ELSE IF mu THEN {[c \in 1..nc |-> b] : b \in MutRc} ELSE [1..nc -> BOOLEAN]) : New(r)
 DropAny == \E c \in 1..nc : Drop(c)
 Next == \/ NewAny \/ DropAny
         \/ ChangeData
@@ -312,6 +364,7 @@ TypeOK == /\ (\A v \in 1..MaxVer : lens[v] \in 0..MaxN) /\ nc \in {1, 2} /\ ver 
           /\ ph \in {"noobj", "idle", "run"}
           /\ L \in 0..nc /\ pos \in 0..MaxN /\ Len(out) = pos /\ cont.hl \in 0..nc /\ (cont.hl > 0 => cont.k /\ ~rc[cont.hl])
           /\ \A c \in 1..nc : file[c].k \in {"A", "F", "B"} /\ stored[c] \in 0..MaxVer
+          /\ mu \in BOOLEAN /\ (mu => rr) /\ (\A c \in 1..nc : memo[c].n \in 0..MaxRep /\ (~mu => memo[c] = NoMemo))
           /\ held \subseteq 1..nc /\ (held # {} => hd) /\ \A v \in 1..MaxVer : Len(vk[v]) = lens[v]
 \* a loadable cache always holds a complete flow (never a proper prefix)
 NoTruncated == \A c \in 1..nc : file[c].k = "F" => \E v \in 1..ver : file[c].c = F(v)
@@ -321,6 +374,8 @@ StoredIsLastComplete == \A c \in 1..nc : file[c].k = "F" => stored[c] \in 1..ver
 FirstRunTransparent == (ph = "run" /\ L = 0) => out = SubSeq(F(ver), 1, pos) /\ (~eager => pulled = pos)
 \* later runs: exactly the stored values in the original order ...
 LoadIsStored == (ph = "run" /\ L > 0 /\ ~Broken) => out = SubSeq(F(stored[L]), 1, pos)
+\* (with mu = TRUE: although the consumer has modified, in place, every object that earlier runs yielded - the
+\* values of F are the values as they were when they passed the cache in the filling run)
 \* ... without pulling from the source or running anything before the loaded cache
 \* (inside a Split the source is read by Split.run itself; the elements before the cache still do not run)
 LoadNoPull == (ph = "run" /\ L > 0) => (~eager => pulled = 0) /\ wpre = 0 /\ (L = 2 => wmid = 0)
@@ -352,6 +407,7 @@ ReleaseNeverFills == [][Release => \A c \in 1..nc : /\ (file'[c].k = "F" => file
 \* (with rr = TRUE only the histories with a Restart: the others are those of rr = FALSE)
 \* (with hd = TRUE only the histories in which something is kept)
 Keeps(c) == (c.cmd = "stop" /\ c.a = "keep") \/ (c.cmd = "raise" /\ c.c = 1)
-EmitEdge == IF (~rr /\ ~hd) \/ (rr /\ \E i \in 1..Len(h') : h'[i].cmd = "restart") \/ (hd /\ \E i \in 1..Len(h') : Keeps(h'[i]))
-            THEN PrintT(ToJson([lens |-> lens, vk |-> vk, nc |-> nc, shape |-> shape, h |-> h'])) ELSE TRUE
+\* (with mu = TRUE every history: the consumer behaves differently in all of them)
+EmitEdge == IF (~rr /\ ~hd) \/ mu \/ (rr /\ \E i \in 1..Len(h') : h'[i].cmd = "restart") \/ (hd /\ \E i \in 1..Len(h') : Keeps(h'[i]))
+            THEN PrintT(ToJson([mu |-> mu, lens |-> lens, vk |-> vk, nc |-> nc, shape |-> shape, h |-> h'])) ELSE TRUE
 =============================================================================
